@@ -1,5 +1,5 @@
 CONSTANTS
-  NS = {"c"}
+  NS = {"c","r"}
   NK = 2
   BatchSet = "mc"
   Callers = {1,2}
